@@ -275,6 +275,11 @@ func (d *Dispatcher) addPeer(
 		pstats = ps
 	}
 
+	if b.Len() > uint(d.torrent.NumPieces()) {
+		return nil, fmt.Errorf(
+			"peer bitfield has %d bits, torrent has %d pieces", b.Len(), d.torrent.NumPieces())
+	}
+
 	p := newPeer(peerID, isPeerOrigin, b, messages, d.clk, pstats)
 	if _, ok := d.peers.LoadOrStore(peerID, p); ok {
 		return nil, errors.New("peer already exists")
@@ -495,14 +500,31 @@ func (d *Dispatcher) feed(p *peer) {
 }
 
 func (d *Dispatcher) dispatch(p *peer, msg *conn.Message) error {
+	// The message body is optional on the wire: a remote peer may send a type
+	// without the matching body.
+	errNoBody := fmt.Errorf("%s message has no body", msg.Message.Type)
+
 	switch msg.Message.Type {
 	case p2p.Message_ERROR:
+		if msg.Message.Error == nil {
+			return errNoBody
+		}
 		d.handleError(p, msg.Message.Error)
 	case p2p.Message_ANNOUCE_PIECE:
+		if msg.Message.AnnouncePiece == nil {
+			return errNoBody
+		}
 		d.handleAnnouncePiece(p, msg.Message.AnnouncePiece)
 	case p2p.Message_PIECE_REQUEST:
+		if msg.Message.PieceRequest == nil {
+			return errNoBody
+		}
 		d.handlePieceRequest(p, msg.Message.PieceRequest)
 	case p2p.Message_PIECE_PAYLOAD:
+		if msg.Message.PiecePayload == nil {
+			closers.Close(msg.Payload)
+			return errNoBody
+		}
 		d.handlePiecePayload(p, msg.Message.PiecePayload, msg.Payload)
 	case p2p.Message_CANCEL_PIECE:
 		d.handleCancelPiece(p, msg.Message.CancelPiece)
@@ -525,8 +547,9 @@ func (d *Dispatcher) handleError(p *peer, msg *p2p.ErrorMessage) {
 }
 
 func (d *Dispatcher) handleAnnouncePiece(p *peer, msg *p2p.AnnouncePieceMessage) {
-	if int(msg.Index) >= d.torrent.NumPieces() {
-		d.log().Errorf("Announce piece out of bounds: %d >= %d", msg.Index, d.torrent.NumPieces())
+	if msg.Index < 0 || int(msg.Index) >= d.torrent.NumPieces() {
+		d.log().Errorf(
+			"Announce piece out of bounds: %d not in [0, %d)", msg.Index, d.torrent.NumPieces())
 		return
 	}
 	i := int(msg.Index)
@@ -539,6 +562,9 @@ func (d *Dispatcher) handleAnnouncePiece(p *peer, msg *p2p.AnnouncePieceMessage)
 }
 
 func (d *Dispatcher) isFullPiece(i, offset, length int) bool {
+	if i < 0 || i >= d.torrent.NumPieces() {
+		return false
+	}
 	return offset == 0 && length == int(d.torrent.PieceLength(i))
 }
 
@@ -547,7 +573,8 @@ func (d *Dispatcher) handlePieceRequest(p *peer, msg *p2p.PieceRequestMessage) {
 
 	i := int(msg.Index)
 	if !d.isFullPiece(i, int(msg.Offset), int(msg.Length)) {
-		d.log("peer", p, "piece", i).Error("Rejecting piece request: chunk not supported")
+		d.log("peer", p, "piece", i).Error(
+			"Rejecting piece request: piece out of bounds or chunk not supported")
 		if err := p.messages.Send(conn.NewErrorMessage(i, p2p.ErrorMessage_PIECE_REQUEST_FAILED, errChunkNotSupported)); err != nil {
 			d.log("peer", p, "piece", i).Errorf("Error sending error message: %s", err)
 		}
